@@ -56,6 +56,37 @@ What is theorem here:
     `strip_equiv_all_circuits_run` likewise from `strip_equiv` (run-time hypothesis `ForkIn`);
   - `forksOKB` cannot be dropped: `badForkNet` (a node of kind `__FORK__` is scheduled as a fork but gets no stems:
     with `strip_forks=True` its rows vanish and its readers are not redirected — reproduced on the real code).
+* CPU vs GPU-kernel code path of the timing simulator (section "code paths"; models `Model/WaveIO.lean`, state kept lane by lane
+  because every array access of the modelled functions has the lane as last index):
+  - `s_to_c`: `assign_thresholds` (the CPU tests `!= 0`, the kernel `>= 0.5`: they agree iff the value is 0 or ≥ 1/2),
+    `assign_cells_agree` (same flags ⇒ the same three raw cells at offsets 0, 1, 2, closed form; no other cell is written by
+    either path), `read_stale_irrelevant` (reading a region stops at the first cell ≥ TMAX: stale cells behind it are
+    irrelevant), `assign_paths_agree` (one (s_node, lane) item, ANY previous contents of the two memories: same waveform read
+    back, raw cells 0–2 equal, cells ≥ 3 keep the old — stale — content), `assign_reads_stimulus` (= `Wave.stimWave`, the
+    stimulus of the waveform model), `s_to_c_gpu_lane` (what the launch does, no hypotheses), `s_to_c_paths_agree` (whole
+    array `c`, every block shape; hypotheses: every state element has (P)PI memory, disjoint (P)PI regions, values 0 or ≥ 1/2);
+    the first hypothesis cannot be dropped: `orphanTab` (a flip-flop without connected outputs has `c_locs = -1`; the NumPy
+    statements store through the −1 at `c[-1]`, `c[0]`, `c[1]`, the kernel skips the row — reproduced on the real code, where
+    it changes captured results: finding candidate, see harness note);
+  - `s_ppo_to_ppi`: `ppo_to_ppi_rows` (exactly which rows each path transfers, no hypotheses), `ppo_to_ppi_paths_agree` (equal
+    when the rows with both slots are the state-element rows), `ppo_to_ppi_keeps_domain`; `inoutTab`: the hypothesis is needed;
+  - propagation: `eval_thread_eq` (kernel thread = guarded CPU loop body, for EVERY evaluator function — both paths call the
+    same `_wave_eval`), `level_paths_agree` (a kernel launch = `level_eval_cpu` on all of `c` and `abuf`, every block shape, no
+    independence assumption: the launcher keeps the op order inside a lane), `c_prop_paths_agree` (induction over the levels),
+    `level_any_thread_order` (every permutation of the threads of a level, under footprint independence of its ops; accumulation
+    commutes) with the instance `level_any_thread_order_wave` for the evaluator `evWave` built from `Wave.waveSem`;
+  - capture (`sd = 0`): `capture_paths_agree` (index loop = slice scan = `captureWv` of the waveform the region encodes, i.e. the
+    model of C13), `c_to_s_paths_agree` (same rows, same records);
+  - `simulate_paths_agree`: `s_to_c; c_prop; c_to_s` of `WaveSimCuda` = of `WaveSim` on all arrays.
+What is correspondence (harness/pathtie.py, clause `path-tie`): the models of BOTH paths of `s_to_c`, `s_ppo_to_ppi` and of the capture
+scan against the real `WaveSim` / `WaveSimCuda` (kernels under `MockCuda`, random block shapes): raw arrays equal cell by cell,
+on random tables (incl. `c_locs = -1` rows), values off {0, 1}, random previous memory contents; the table hypotheses of
+the whole-array theorems are evaluated on the real tables and, where they hold, the two real arrays must be equal. The kernel
+launch is tied in C07 (`grid`), `_wave_eval` in C03 (gate calls and whole runs of both classes), accumulation in C13.
+Not covered by a theorem: that the shared Python function `_wave_eval` is a function of the lane's memory with footprints inside
+the regions of its op (it is the parameter `ev` of the propagation theorems; its waveform-level model `Wave.waveEval` is tied by
+C03); the raw cells `_wave_eval` leaves behind the terminator of its output (the instance `evWave` leaves them unchanged);
+`sd > 0` (the two capture paths seed the sampling differently: `c_loc` vs `2 y`); NaN / infinite values in `s`.
 What is correspondence (harness/c06.py, clause `wave-strip`): `genOps`, `stemsOf` = the real `ops` / `c_locs` (C01, exact);
 per case additionally: the real un-stripped rows satisfy `stripOkB` for the real branch ↦ stem map (read off `c_locs`),
 `stripOps` of the real un-stripped rows equals the real stripped rows, `Net.wfB` / `orderOKB` / `forksOKB` hold for the real
@@ -65,7 +96,8 @@ un-stripped run) are evaluated per case and, when they hold, the two real runs m
 Not covered by a theorem: memory-level execution of the stripped WaveSim (the stripped rows read the stem's memory
 through `c_locs`; for LogicSim this step is proved: `strip_irrelevant_logic_mem`).
 What is oracle only (harness/c06.py): LogicSim fork stripping on the real code (the theorem `strip_irrelevant_logic` is about
-the model), CPU vs mock-GPU kernels, WaveSim lanes and `c_prop(sims=k)`, fork stripping with non-monotone stems (known
+the model), whole CPU vs mock-GPU runs on the same simulator objects incl. a second assignment after a first one (kept as it was;
+the path theorems above are about the models), WaveSim lanes and `c_prop(sims=k)`, fork stripping with non-monotone stems (known
 finding D13). -/
 namespace KV.C06
 open KV KV.Sig KV.Wave
